@@ -490,8 +490,9 @@ class Check:
         cov.update(self.extra)
         ev = dict(property_id=self.prop, tier=self.tier, seed=self.seed, level=self.level, coverage=cov,
                   assumptions=self.assumptions, wall_s=round(time.time() - self.t0, 2), violations=violations)
-        (ROOT / "evidence").mkdir(exist_ok=True)
-        (ROOT / "evidence" / f"{self.prop}.json").write_text(json.dumps(ev, indent=1, default=str) + "\n")
+        evdir = Path(os.environ.get("VERIF_EVIDENCE_DIR") or (ROOT / "evidence"))   # seeded-change runs divert it
+        evdir.mkdir(parents=True, exist_ok=True)
+        (evdir / f"{self.prop}.json").write_text(json.dumps(ev, indent=1, default=str) + "\n")
 
     def finish(self):
         """print the verdict lines, write evidence, exit"""
